@@ -7,7 +7,16 @@ import traceback
 from abc import ABC, abstractmethod
 from contextlib import ExitStack
 from multiprocessing.connection import Connection
-from typing import Any, List, Optional, Tuple, Sequence, Iterator, TYPE_CHECKING
+from typing import (
+    Any,
+    Iterable,
+    List,
+    Optional,
+    Tuple,
+    Sequence,
+    Iterator,
+    TYPE_CHECKING,
+)
 
 import dnaio
 
@@ -57,6 +66,29 @@ else:
     mpctx_Process = mpctx.Process
 
 
+def _keep_pairs_together(chunks: Iterable[memoryview]) -> Iterator[memoryview]:
+    """
+    Ensure that each chunk of interleaved data contains an even number of records.
+
+    dnaio.read_chunks guarantees this only for FASTQ. If a FASTA chunk has an odd
+    number of records, its last record is moved to the beginning of the next chunk.
+    """
+    leftover = b""
+    for chunk in chunks:
+        if not leftover and chunk[0:1] != b">":
+            yield chunk
+            continue
+        data = leftover + bytes(chunk)
+        leftover = b""
+        if data.count(b"\n>") % 2 == 0:  # odd number of records
+            pos = data.rfind(b"\n>") + 1
+            data, leftover = data[:pos], data[pos:]
+        if data:
+            yield memoryview(data)
+    if leftover:
+        yield memoryview(leftover)
+
+
 class ReaderProcess(mpctx_Process):
     """
     Read chunks of FASTA or FASTQ data (single-end or paired) and send them to a worker.
@@ -78,6 +110,7 @@ class ReaderProcess(mpctx_Process):
         queue: multiprocessing.Queue,
         buffer_size: int,
         stdin_fd,
+        interleaved: bool = False,
     ):
         """
         Args:
@@ -105,6 +138,7 @@ class ReaderProcess(mpctx_Process):
         self.queue = queue
         self.buffer_size = buffer_size
         self.stdin_fd = stdin_fd
+        self._interleaved = interleaved
 
     def run(self):
         if self.stdin_fd != -1:
@@ -138,7 +172,10 @@ class ReaderProcess(mpctx_Process):
 
     def _read_chunks(self, *files) -> Iterator[Tuple[memoryview, ...]]:
         if len(files) == 1:
-            for chunk in dnaio.read_chunks(files[0], self.buffer_size):
+            chunks = dnaio.read_chunks(files[0], self.buffer_size)
+            if self._interleaved:
+                chunks = _keep_pairs_together(chunks)
+            for chunk in chunks:
                 yield (chunk,)
         elif len(files) == 2:
             for chunks in dnaio.read_paired_chunks(
@@ -356,6 +393,7 @@ class ParallelPipelineRunner(PipelineRunner):
             queue=self._need_work_queue,
             buffer_size=self._buffer_size,
             stdin_fd=fileno,
+            interleaved=inpaths.interleaved,
         )
         self._reader_process.daemon = True
         self._reader_process.start()
